@@ -702,15 +702,55 @@ def run(ctx):
                 if T.is_op(g, 'EXTCALL') and g[2] == T.const(name) and neg != positive:
                     return True
             return False
+        NORMALISERS = ('expanduser', 'resolve', 'absolute', 'expandvars', 'normpath', 'abspath', 'realpath')
+
+        def file_identity(t):
+            """Which file a path expression denotes: wrappers (Path(...), os.fspath, str) are transparent, normalising calls
+            (expanduser, resolve, ...) give another - possibly different - file name."""
+            if T.is_op(t, 'EXTCALL') and len(t) >= 4 and T.is_const(t[2]):
+                nm = str(t[2][1])
+                if nm.split('.')[-1] in ('Path', 'PurePath', 'PosixPath', 'fspath', 'fsdecode'):
+                    return file_identity(t[3])
+                if nm.split('.')[-1] in NORMALISERS:
+                    return (nm.split('.')[-1], file_identity(t[3]))
+            if T.is_op(t, 'STR') and len(t) == 3:
+                return file_identity(t[2])
+            if T.is_op(t, 'METHOD') and len(t) == 4 and T.is_const(t[3]) and t[3][1] in NORMALISERS:
+                return (t[3][1], file_identity(t[2]))
+            return t
+
+        def checked_files(known, name):
+            out = []
+            for k in known:
+                if T.is_op(k, 'NOT'):
+                    g = k[2][2] if T.is_op(k[2], 'BOOL') else k[2]
+                    if T.is_op(g, 'METHOD') and g[3] == T.const(name):
+                        out.append(file_identity(g[2]))
+            return out
         for cs, leaf in nl:
             known = known_at(f, cs)
             ob.require(_method_fact(known, 'exists', False), 'file_ accepts a path without having established that it does not exist '
                        '(an existing file would be overwritten)', fi.where, found=[T.show(x, maxdepth=4) for x in known][:6])
+            # the file that is known not to exist must be the file whose name is handed on (and then created)
+            ret_id = file_identity(leaf)
+            base = ret_id
+            while isinstance(base, tuple) and len(base) == 2 and base[0] in NORMALISERS:
+                base = base[1]
+            if base == val:
+                ex = checked_files(known, 'exists')
+                if ex:
+                    ob.require(ret_id in ex, 'file_ establishes that one path does not exist and hands on another (the name is '
+                               'normalised - e.g. "~" expanded - after, or apart from, the existence check): an existing file can be '
+                               'overwritten', fi.where, expected=str(ret_id)[:120], found=[str(x)[:120] for x in ex])
             ob.require(_method_fact(known, 'is_dir', False), 'file_ accepts a path without having established that it is not a directory',
                        fi.where, found=[T.show(x, maxdepth=4) for x in known][:6])
             ob.require(_method_fact(known, 'os.access', True), 'file_ accepts a path whose parent directory was not checked to be writable',
                        fi.where, found=[T.show(x, maxdepth=4) for x in known][:6])
-            same_term(ob, leaf, val, 'file_ returns the path unchanged', fi.where)
+            if base == val and ret_id != val:
+                ob.note('file_ hands on a normalised form of the path: %s' % str(ret_id)[:100])
+                ob.evaluations += 1
+            else:
+                same_term(ob, leaf, val, 'file_ returns the path unchanged', fi.where)
         only_argerror(ob, v, fi.where, 'file_')
     # ---------------------------------------------------------------- who writes to stdout / creates files
     with ctx.obligation('C20.STDOUT', 'stdout and file writers', None, 'btc_hd_wallet/') as ob:
